@@ -155,6 +155,8 @@ func (g *Gen) inputRaw(n *Node) IVal {
 	case KFloat64, KFloat32:
 		c := r.Intn(100)
 		switch {
+		case c < 6:
+			return f64V(Pick(r, []float64{math.NaN(), math.Inf(1), math.Inf(-1)}))
 		case c < 40:
 			return f64V(Pick(r, []float64{0, 1, 2.5, 3.25, 10, -1, 0.1, 1e300, -1e300, 3.4028235e38, 3.5e38, math.NaN(), math.Inf(-1), 16777217}))
 		case c < 55:
@@ -356,6 +358,9 @@ func (g *Gen) destRaw(n *Node, t reflect.Type, populated bool) reflect.Value {
 	case KFloat32, KFloat64:
 		if !zero {
 			x := Pick(r, []float64{1, 2.5, 3.25, 10, -1, 0.5})
+			if r.P(10) {
+				x = Pick(r, []float64{math.NaN(), math.Inf(1), math.Inf(-1), 1e300, -1e300, 5e-324})
+			}
 			v.SetFloat(x)
 		}
 	case KBool:
@@ -364,7 +369,12 @@ func (g *Gen) destRaw(n *Node, t reflect.Type, populated bool) reflect.Value {
 		}
 	case KTime:
 		if !zero {
-			v.Set(reflect.ValueOf(baseTime.Add(time.Duration(r.Intn(400)-200) * time.Hour)))
+			tv := baseTime.Add(time.Duration(r.Intn(400)-200) * time.Hour)
+			if r.P(6) {
+				// instants outside the range int64 nanoseconds since 1970 can express
+				tv = time.Date(Pick(r, []int{2, 1600, 1677, 2262, 2300, 9999}), 6, 1, 12, 0, 0, 0, time.UTC)
+			}
+			v.Set(reflect.ValueOf(tv))
 		}
 	case KPtr:
 		if !zero && (populated || !r.P(15)) {
